@@ -8,6 +8,13 @@ export CARGO_NET_OFFLINE=true CARGO_BUILD_JOBS=8
 git -C /repo worktree remove --force $WT 2>/dev/null
 git -C /repo worktree add -q --detach $WT HEAD || exit 2
 declare -A DEMO=(
+ [C14e_heredoc_rewind_by_chars]="-p yash-semantics c14e"
+ [C13e_sigchld_handler_after_poll]="-p yash-env -p yash-semantics --test c13e_sigchld_race --test c13e_subshell_sigchld_race"
+ [C12e_job_number_is_position]="-p yash-env -p yash-builtin -E binary(~c12e)"
+ [C11e_set_monitor_not_last]="-p yash-builtin c11e"
+ [C10e_dot_not_found_not_special]="-p yash-builtin --test c10e_dot_script_not_found"
+ [C09e_backup_fd_failure_ignored]="-p yash-semantics --test c09e_save_fd_exhaustion"
+ [C08e_fork_drops_umask]="-p yash-builtin --test c08e_umask_seen_by_subshell"
  [C06e_heredoc_empty_delimiter]="-p yash-syntax --test c06e_heredoc_empty_delimiter"
  [C02e_stop_ends_wait_without_job_control]="-p yash-semantics --test c02e_stopped_subshell"
  [C07e_clause_delimiter_command_name]="-p yash-builtin --test c07e_typeset_fp_roundtrip"
